@@ -23,12 +23,15 @@ def main():
     tried = 0
     top = float(np.nextafter(1.0, 0.0))
     o_random, o_rand = np.random.random, np.random.rand
+    o_rs, o_uni = np.random.random_sample, np.random.uniform
     for n_hist, w in ((10, np.full(10, 0.1)), (3, np.array([0.3, 0.3, 0.4])), (7, np.full(7, 1 / 7)), (49, np.full(49, 1 / 49))):
         for scheme in ("mult", "syst"):
             for draw in (top, 0.0, 0.5):
                 st = state(n_hist)
                 np.random.random = lambda *a, **k: (np.full(a[0], draw) if a else draw)
                 np.random.rand = lambda *a: (np.full(a, draw) if a else draw)
+                np.random.random_sample = lambda size=None: (np.full(size, draw) if size is not None else draw)
+                np.random.uniform = lambda low=0.0, high=1.0, size=None: (np.full(size, low + (high - low) * draw) if size is not None else low + (high - low) * draw)
                 tried += 1
                 try:
                     Resampler(st, 8, scheme, None, False, False).run(w.copy())
@@ -38,11 +41,45 @@ def main():
                     err = f"{type(e).__name__}: {e}"
                 finally:
                     np.random.random, np.random.rand = o_random, o_rand
+                    np.random.random_sample, np.random.uniform = o_rs, o_uni
                 if err:
                     print(json.dumps({"reproduced": True, "tried": tried, "detail": f"Resampler.run({scheme!r}) with weights summing to {w.sum()!r} "
                                       f"(cumsum ends at {np.cumsum(w)[-1]!r}) and uniform draw {draw!r}: {err}",
                                       "input": {"weights": w.tolist(), "scheme": scheme, "draw": draw}}))
                     return
+    # the weight vector is the caller's: read-only vectors (memmap, broadcast, frozen) are accepted and no vector is modified in place
+    from tempest.tools import systematic_resample as _sr
+    for base in (np.array([0.3, 0.3, 0.4]) * (1 - 3e-9), np.full(7, 1 / 7) * (1 + 2e-9), np.array([0.5, 0.25, 0.25])):
+        for how in ("setflags", "broadcast"):
+            w = np.array(base, copy=True)
+            if how == "broadcast":
+                w = np.broadcast_to(np.array([1.0 / 6 * float(base.sum())]), (6,))
+            else:
+                w.setflags(write=False)
+            keep = np.array(w, copy=True)
+            tried += 1
+            for scheme in ("syst", "mult"):
+                st = state(len(w))
+                try:
+                    np.random.seed(3)
+                    Resampler(st, 5, scheme, None, False, False).run(w)
+                    if scheme == "syst":
+                        _sr(5, w)
+                    err = None if len(st.get_current("u")) == 5 else "wrong number of particles"
+                except Exception as e:
+                    err = f"{type(e).__name__}: {e}"
+                if err is None and not np.array_equal(np.asarray(w), keep):
+                    err = "the caller's weight vector was modified in place"
+                if err:
+                    print(json.dumps({"reproduced": True, "tried": tried, "detail": f"{scheme} resampling with a read-only weight vector ({how}, sum {float(keep.sum())!r}): {err}",
+                                      "input": {"scheme": scheme, "weights": keep.tolist(), "read_only": how}}))
+                    return
+    wv = np.array([0.2, 0.5, 0.3]) * (1 + 4e-9)
+    keepv = wv.copy()
+    _sr(4, wv)
+    if not np.array_equal(wv, keepv):
+        print(json.dumps({"reproduced": True, "tried": tried, "detail": "systematic_resample rescaled the caller's (writable) weight vector in place", "input": {"weights": keepv.tolist()}}))
+        return
     # ragged history (iterations that stored different numbers of particles, e.g. after a resume with another n_particles): the
     # particles stored by Resampler.run must be the history particles at the drawn flat indices, copy counts floor/ceil
     for scheme in ("syst", "mult"):
